@@ -1,8 +1,13 @@
-//! C13 — not implemented yet.
+//! C13 — evaluation is pure: the caller's scope is untouched and results are repeatable.
+//!
+//! Shares the generated programs of C01 (`c01::run_with`): for every case the scope's
+//! `Display` is compared before parsing, after parsing and after evaluating; prepared
+//! evaluators are re-run in random order and must give their first value again; the Lean
+//! model (whose scope-preservation is a theorem) must agree with the implementation.
 
 use crate::report::Report;
 use crate::Cfg;
 
-pub fn run(_cfg: &Cfg) -> Report {
-  Report::new("C13", "not implemented")
+pub fn run(cfg: &Cfg) -> Report {
+  crate::c01::run_with(cfg, "C13")
 }
